@@ -481,6 +481,7 @@ func writeEvidence(prop, tier string, seed int, ps *propSpec, units []*Unit, rep
 	dyn := map[string]bool{}
 	abstracted := map[string]int{}
 	contractsUsed := map[string]bool{}
+	ginv := map[string]bool{}
 	var unsupported []string
 	for _, u := range units {
 		fns = append(fns, funcName(u.fn))
@@ -500,6 +501,9 @@ func writeEvidence(prop, tier string, seed int, ps *propSpec, units []*Unit, rep
 			contractsUsed[k] = true
 		}
 		unsupported = append(unsupported, u.unsupported...)
+		for _, g := range u.globalInvsUsed {
+			ginv[g] = true
+		}
 	}
 	keys := func(m map[string]bool) []string {
 		var r []string
@@ -530,6 +534,9 @@ func writeEvidence(prop, tier string, seed int, ps *propSpec, units []*Unit, rep
 	}
 	for _, k := range keys(dyn) {
 		assumptions = append(assumptions, "dynamic call treated as arbitrary result without side effects: "+k)
+	}
+	for _, k := range keys(ginv) {
+		assumptions = append(assumptions, k)
 	}
 	for _, k := range keys(contractsUsed) {
 		assumptions = append(assumptions, "callee contract assumed at call sites (proved in its own unit when listed): "+k)
